@@ -223,25 +223,28 @@ def pool_side(W, chk):
                where(fc[0]) if fc else A.entry)
     A0 = W.run(pm, "execute", ("ProvideLiquidity",))
     fc0 = farm_calls(A0)
-    chk.expect(len(fc0) == 3, "WHO-farm-calls", "ProvideLiquidity", "3 farm-manager calls (expand, create with id, create)",
-               "%d farm-manager calls" % len(fc0), A0.entry)
-    for e in fc0:
+    kinds_seen = set()
+    for i, e in enumerate(fc0):
         msg = e.extra["dargs"][1]
         act = vfield(vfield(msg, "ManagePosition"), "action")
-        kind = tagvals(act, "#v:mantra_dex_std::farm_manager::PositionAction")
-        if kind == {"Create"}:
+        kind = tagvals(act, "#v:mantra_dex_std::farm_manager::PositionAction") or set()
+        kinds_seen |= kind
+        if not kind or kind - {"Create", "Expand"}:
+            chk.fail("AGREE-lock-msg", "unknown", "unexpected farm-manager message %s" % sorted(kind), where(e))
+        nonconst = lambda v: {o for o in exact_origins(v) if not o.startswith("Const(")}   # noqa: E731
+        if "Create" in kind:       # (one constructor site may build either action: each variant's payload is checked on its own)
             c = vfield(act, "Create")
             ok = all_origins(vfield(c, "receiver")) == {"info.sender", PL + ".receiver"} and \
                 exact_origins(vfield(c, "unlocking_duration")) == {PL + ".unlocking_duration"} and \
-                exact_origins(vfield(c, "identifier")) == {PL + ".lock_position_identifier"}
-            chk.expect(ok, "AGREE-lock-msg", "create@%s" % e.span.rsplit(":", 1)[-1], "Create{identifier, unlocking_duration, receiver} <- request fields",
+                nonconst(vfield(c, "identifier")) <= {PL + ".lock_position_identifier"}
+            chk.expect(ok, "AGREE-lock-msg", "create#%d" % i, "Create{identifier, unlocking_duration, receiver} <- request fields",
                        "lock message Create is wired as %s" % show(c)[:300], where(e))
-        elif kind == {"Expand"}:
+        if "Expand" in kind:
             c = vfield(act, "Expand")
-            chk.expect(exact_origins(vfield(c, "identifier")) == {PL + ".lock_position_identifier"}, "AGREE-lock-msg", "expand",
+            chk.expect(exact_origins(vfield(c, "identifier")) == {PL + ".lock_position_identifier"}, "AGREE-lock-msg", "expand#%d" % i,
                        "Expand{identifier} <- lock_position_identifier", "Expand identifier <- %s" % show(vfield(c, "identifier")), where(e))
-        else:
-            chk.fail("AGREE-lock-msg", "unknown", "unexpected farm-manager message %s" % kind, where(e))
+    chk.expect(kinds_seen == {"Create", "Expand"} and len(fc0) >= 1, "WHO-farm-calls", "ProvideLiquidity", "farm-manager calls: Create and Expand only (%d site(s))" % len(fc0),
+               "farm-manager calls build %s" % sorted(kinds_seen), A0.entry)
     # expanding an existing position: each conjunct of the ownership check cuts the Expand message
     Q = r"^Query\(Positions\)\.positions"
     conj = [("one position", PredTrue("positions.len()==1", eq_test(Q + r"$", r"^Const\(1_usize\)$"))),
